@@ -367,6 +367,14 @@ TEMPLATES = [
     ("nilary_server_block2", False, "srv = #{{ ! [#'int, 0] {{ | =0 => Done | ='int => {{ {{ [~, 1] %(SUB)s . }}, {{ [] ^ }} }} | {N} ., [] ^ }} }}, srv"),
     ("nilary_server_bound", True, "srv = #{{ ! [#'int, 0] {{ | =[] => -1 | =('int)k => k }} =m, m {{ | =0 => Done | =-1 => {N} ., [] ^ | =n => {B}[n, 1] %(SUB)s ., [] ^ }} }}, srv"),
     ("nilary_server_bin_msg", False, "srv = #{{ ! [#['int, 'bin], 0] {{ | =[0, b] => b | =[n, b] => [[n, 1] %(SUB)s, [b, 0x01] __binary_concat__ [0x02, 0x03] __binary_concat__] ., [] ^ | [{N}, 0x00] ., [] ^ }} }}, srv"),
+    # --- the loop state is rebuilt each iteration by a SPREAD whose source is a union of tuple shapes: the compiler
+    # emits one tuple-building path per shape combination, all of which must clean their temporaries up (seeded
+    # change C16-2: the non-last paths jumped past the clean-up, 2 operands leaked per iteration) -------------
+    ("spread_union_state_first", False, "'st = [n: 'int, k: 'int] | [n: 'int]\nf = #'st {{ | $.n =0 => Done | =s => [...s, n: [s.n, 1] %(SUB)s] ^ }}, [n: {N}, k: 7] f"),
+    ("spread_union_state_second", False, "'st = [n: 'int, k: 'int] | [n: 'int]\nf = #'st {{ | $.n =0 => Done | =s => [...s, n: [s.n, 1] %(SUB)s] ^ }}, [n: {N}] f"),
+    ("spread_union_state_three", False, "'st = [n: 'int, k: 'int] | [n: 'int] | [n: 'int, j: 'bin, k: 'int]\nf = #'st {{ | $.n =0 => Done | =s => [...s, n: [s.n, 1] %(SUB)s] ^ }}, [n: {N}, j: 0x01, k: 2] f"),
+    ("spread_union_inner", False, "'opt = [tag: 'int, pad: 'int] | [tag: 'int]\nf = #['int, 'opt] {{ | =[0, _] => Done | =[n, o] => {{ [...o, tag: n] =next, [[n, 1] %(SUB)s, next] ^ }} }}, [{N}, [tag: 0, pad: 0]] f"),
+    ("spread_union_named", False, "'st = S[n: 'int, k: 'int] | T[n: 'int]\nf = #'st {{ | $.n =0 => Done | =s => s[..., n: [s.n, 1] %(SUB)s] ^ }}, S[n: {N}, k: 7] f"),
     # --- `^f` (named) -------------------------------------------------------------------------
     ("named_hop", True, "g = #'int {{ | =0 => 0 | =n => {B}[n, 1] %(SUB)s ^ }}, f = #'int {{ [~, 1] %(ADD)s ^g }}, {N} f"),
     ("named_mutual", True,
